@@ -93,9 +93,9 @@ func (u *Unit) ghostAt(st *State, anchor string, pos token.Pos) {
 	u.reached["ghost "+anchor] = true
 	for _, ga := range gas {
 		sev := u.specEv(st, pos, u.name+" ghost at "+anchor)
-		for k, v := range st.lets {
-			_ = k
-			_ = v
+		if ga.Lemma != nil {
+			u.useLemma(st, sev, ga.Lemma)
+			continue
 		}
 		v := sev.expr(ga.RHS)
 		lv := sev.lvalue(ga.LHS)
@@ -814,6 +814,7 @@ func (u *Unit) forStmt(st *State, x *ast.ForStmt, c *Ctl, k func(*State)) {
 						u.emit(sp, "decreases@loop"+id, app("<", d1, d0), "variant decreases")
 					}
 				}
+				u.ghostAt(se, "end loop "+id, x.Body.Rbrace)
 				if x.Post != nil {
 					u.stmt(se, x.Post, c2, post)
 				} else {
